@@ -34,6 +34,7 @@ BASE_KEYS = ("note", "tool", "codon_start")
 KF_ORDER = "KF-C10-inconsistent-area-order"
 KF_PREPEPTIDE = "KF-C10-prepeptide-location-parts"
 KF_FUNCTION = "KF-C10-gene-function-colon"
+KF_PRE_SEQUENCE = "KF-C10-prepeptide-long-sequence"
 WORKERS = max(2, min(8, (os.cpu_count() or 4) // 2))
 
 
@@ -465,6 +466,7 @@ class C10(Property):
         (S + "features/pfam_domain.py", "PFAMDomain.to_biopython"), (S + "features/pfam_domain.py", "PFAMDomain.from_biopython"),
         (S + "features/cds_motif.py", "CDSMotif.from_biopython"),
         (S + "features/prepeptide.py", "Prepeptide.to_biopython"), (S + "features/prepeptide.py", "Prepeptide.from_biopython"),
+        (S + "features/prepeptide.py", "_combine_sections"),   # exists once fixes/D107 is applied ("missing" before)
         (S + "features/module.py", "Module.to_biopython"), (S + "features/module.py", "Module.from_biopython"),
         (S + "features/cds_feature.py", "CDSFeature.to_biopython"), (S + "features/cds_feature.py", "CDSFeature.from_biopython"),
         (S + "features/gene.py", "Gene.to_biopython"), (S + "features/gene.py", "Gene.from_biopython"),
@@ -1084,7 +1086,7 @@ class C10(Property):
         if not spec_ok and not (drv["swo"] and drv["sorted"]):
             # the recorded class: the feature ordering is inconsistent on this record (see known_findings.json)
             known = KF_ORDER
-        elif not spec_ok and not other_bad:
+        elif not spec_ok and (not other_bad or other_bad == ["text_fixed"]):
             known = self._known_class(case, obs)
         return Judgement(corr, spec_ok, in_scope=scope, known=known, nontrivial=nontrivial, tags=tuple(sorted(set(tags))),
                          detail=detail[:1500])
@@ -1093,32 +1095,42 @@ class C10(Property):
     def _known_class(case: Dict[str, Any], obs: Dict[str, Any]) -> Optional[str]:
         """the recorded attribute-level findings (known_findings.json); a case belongs to one of them only when,
         apart from exactly what the finding describes, no attribute of any feature differs"""
-        reverse_pre = bool(case.get("prepeptides"))
-        colon = any(product is None and ": " in desc for a in case.get("annot", []) for _f, _t, desc, product in a["functions"])
+        has_pre = bool(case.get("prepeptides"))
+        # a qualifier line holds 58 characters: /name="value" is split (at no space: anywhere) beyond that
+        long_pre = any(len(p["leader"]) > 40 or len(p["core"]) > 42 or len(p["tail"]) > 42 for p in case.get("prepeptides", []))
+        colon = any(product is None and ":" in desc for a in case.get("annot", []) for _f, _t, desc, product in a["functions"])
 
-        def blur(obj: Any, pre: bool, func: bool) -> Any:
+        def blur(obj: Any, flags: Tuple[bool, bool, bool]) -> Any:
+            parts, func, spaces = flags
             if isinstance(obj, list):
-                return [blur(x, pre, func) for x in obj]
+                return [blur(x, flags) for x in obj]
             if not isinstance(obj, dict):
                 return obj
-            if pre and obj.get("cls") == "Prepeptide":
-                # the same bases in the same transcription order, whatever the cut into parts
-                obj = dict(obj, **{"@loc": merge_in_transcription_order(obj["@loc"]["parts"])})
+            if obj.get("cls") == "Prepeptide":
+                if parts:
+                    # the same bases in the same transcription order, whatever the cut into parts
+                    obj = dict(obj, **{"@loc": merge_in_transcription_order(obj["@loc"]["parts"])})
+                if spaces:
+                    obj = dict(obj, **{k: obj[k].replace(" ", "") for k in ("_leader", "_core", "_tail")})
             if func and obj.get("cls") == "_GeneFunctionAnnotation":
                 text = obj["description"] if not obj["product"] else f"{obj['product']}: {obj['description']}"
-                return {"cls": obj["cls"], "function": obj["function"], "tool": obj["tool"], "text": text}
-            return {k: blur(v, pre, func) for k, v in obj.items()}
+                return {"cls": obj["cls"], "function": obj["function"], "tool": obj["tool"], "text": text.replace(" ", "")}
+            return {k: blur(v, flags) for k, v in obj.items()}
 
-        def same(pre: bool, func: bool) -> bool:
-            a = blur(obs["state"]["attrs"], pre, func)
-            return not attrs_diff(a, blur(obs["re_gb"]["attrs"], pre, func), textual=True) and \
-                not attrs_diff(a, blur(obs["re_json"]["attrs"], pre, func), textual=False)
-        if colon and same(False, True):
-            return KF_FUNCTION
-        if reverse_pre and same(True, False):
-            return KF_PREPEPTIDE
-        if colon and reverse_pre and same(True, True):
-            return KF_FUNCTION
+        def same(flags: Tuple[bool, bool, bool]) -> bool:
+            a = blur(obs["state"]["attrs"], flags)
+            return not attrs_diff(a, blur(obs["re_gb"]["attrs"], flags), textual=True) and \
+                not attrs_diff(a, blur(obs["re_json"]["attrs"], flags), textual=False)
+        classes = [((False, True, False), colon, KF_FUNCTION), ((True, False, False), has_pre, KF_PREPEPTIDE),
+                   ((False, False, True), long_pre, KF_PRE_SEQUENCE)]
+        applicable = [c for c in classes if c[1]]
+        for flags, _, kf in applicable:
+            if same(flags) and (obs["text_fixed"] or flags[2]):
+                return kf
+        if len(applicable) > 1:
+            union = tuple(any(c[0][i] for c in applicable) for i in range(3))
+            if same(union) and (obs["text_fixed"] or union[2]):   # several recorded findings at once
+                return applicable[0][2]
         return None
 
     def shrink(self, case: Dict[str, Any]) -> Iterator[Dict[str, Any]]:
